@@ -136,6 +136,15 @@ def ok_remainders(pr):
                     v = e[2][0]
                     if v[0] == "agg" and v[1] == "tuple" and len(v[2]) == 2:
                         out.append((i, v[2][1]))
+                    elif v[0] == "var" and not (1 <= v[2] <= vx.argc) and v[2] not in vx.mw and \
+                            all(d_[2] == "assign" and not d_[3]["p"]["p"] for d_ in pr.tr.defs.get(v[2], [])):
+                        # `Ok(pair)` where the pair was chosen on the way (`x.unwrap_or((None, bytes))`): each alternative
+                        for d_ in pr.tr.defs.get(v[2], []):
+                            e2 = vx.rvalue(d_[3]["rv"], d_[0])
+                            if e2[0] == "agg" and e2[1] == "tuple" and len(e2[2]) == 2:
+                                out.append((d_[0], e2[2][1]))
+                            else:
+                                out.append((d_[0], ("?", show(e2)[:80])))
                     else:
                         out.append((i, ("?", show(v)[:80])))
         t = b.blocks[i]["term"]
@@ -343,4 +352,39 @@ def _progress_guard(pr, hdr, blocks, l):
             if codec_rules.progress_guard(b, pr.tr, hdr, blocks, l, bb) or \
                     codec_rules.progress_guard_replace(b, pr.tr, hdr, blocks, l, bb):
                 return True
+    # the guard at the bottom of the iteration: `let before = s.len(); ...; if s.len() == before { break }` - every cycle
+    # takes the snapshot and then passes the comparison on its "differs" edge
+    tr = pr.tr
+    for x in sorted(blocks):
+        t = b.blocks[x]["term"]
+        if t["t"] != "switch":
+            continue
+        v = tr.value(t["d"])
+        if not (v.kind == "rv" and v.rv["r"] == "bin" and v.rv["op"] in ("Eq", "Ne")):
+            continue
+        for p_, q_ in ((v.rv["a"], v.rv["b"]), (v.rv["b"], v.rv["a"])):
+            vp, vq = tr.value(p_), tr.value(q_)
+            if not (codec_rules.len_of_local(tr, p_, l) and codec_rules.len_of_local(tr, q_, l) and vp.kind == "call" and vq.kind == "call"):
+                continue
+            if vp.bb == vq.bb or vp.bb not in blocks or vq.bb not in blocks or not b.dominates(vq.bb, vp.bb) or not b.dominates(vp.bb, x):
+                continue
+            # no assignment to the slice between the current-length read and the test, none before the snapshot in the cycle
+            zero_t = dict((val, tb) for val, tb in t["targets"]).get(0)
+            eq_t = t["else"] if v.rv["op"] == "Eq" else zero_t
+            leaves = eq_t is not None and (eq_t not in blocks or cycles_broken_by(b, eq_t, blocks | {eq_t}, {hdr}) and hdr not in _reach_in(b, eq_t, blocks))
+            if leaves and cycles_broken_by(b, hdr, blocks, {x}) and cycles_broken_by(b, hdr, blocks, {vq.bb}):
+                defs_between = [d for d in tr.defs.get(l, []) if d[0] in blocks and b.dominates(vp.bb, d[0]) and b.dominates(d[0], x) and d[0] != vp.bb]
+                if not defs_between:
+                    return True
     return False
+
+
+def _reach_in(b, start, blocks):
+    seen, st = set(), [start]
+    while st:
+        y = st.pop()
+        if y in seen or y not in blocks:
+            continue
+        seen.add(y)
+        st.extend(b.succ[y])
+    return seen
